@@ -790,8 +790,8 @@ def run_histories(ctx, impl, hists, point):
 def correspond(ctx, n_valid=None, n_malformed=None):
     import logging
     logging.disable(logging.CRITICAL)
-    n_valid = n_valid if n_valid is not None else ctx.n(900, 6000)
-    n_malformed = n_malformed if n_malformed is not None else ctx.n(1300, 9000)
+    n_valid = n_valid if n_valid is not None else ctx.n(400, 6000)
+    n_malformed = n_malformed if n_malformed is not None else ctx.n(600, 9000)
     twin_check(ctx)
     rng = ctx.rng
     with Impl() as impl:
